@@ -3,7 +3,7 @@
    destination every copied entry carries the requested owner / mode / time; notifications. *)
 From Coq Require Import List NArith Bool Lia ZifyN ZifyNat ZifyBool.
 From FS Require Import Sx Model.Path Model.SymMode Model.Copier Model.CopySpec Proofs.Lex
-  Proofs.CopierP Proofs.CopyOpsP Proofs.CopyDentP Proofs.CopyNodeP Proofs.CopyMkdirP Proofs.CopyConflictP
+  Proofs.CopierP Proofs.CopyOpsP Proofs.CopyDentP Proofs.CopyLinkP Proofs.CopyNodeP Proofs.CopyMkdirP Proofs.CopyConflictP
   Proofs.CopyTopP Proofs.CopyThmP.
 Import ListNotations.
 Open Scope N_scope.
@@ -22,7 +22,6 @@ Section Faith.
   Variable o : copts.
   Variable ms : option (list bitcmd).
   Variable multi : N -> bool.
-  Hypothesis Hmulti : forall i, multi i = false.
   Notation copied := (copied o ms multi).
   Notation new_entry := (new_entry o ms multi).
 
@@ -178,7 +177,6 @@ Section Single.
   Variable o : copts.
   Variable sroot : snode.
   Hypothesis Hsrc : wf_src sroot.
-  Hypothesis Hnl : no_link_groups sroot.
   Notation multi := (multi_of sroot).
 
   Definition parse_of : option (option (list bitcmd)) :=
@@ -365,7 +363,7 @@ Section C13.
   Variable o : copts.
   Variable sroot : snode.
   Hypothesis Hsrc : wf_src sroot.
-  Hypothesis Hnl : no_link_groups sroot.
+  Hypothesis Hlc : links_consistent sroot.
   Notation multi := (multi_of sroot).
 
   Lemma res_at_source ms sn L V1 rel s :
@@ -421,10 +419,10 @@ Section C13.
                 forall rel, iso_at o ms m sn L (view_of_fs (c_fs st')) rel = true.
   Proof.
     intros Hw (Hfs & Hemp) Eo Hp Hs HL Hm Hclear.
-    destruct (copy_overlay_partial_proof o sroot Hsrc Hnl fs src dst r Hfs Eo) as (st' & E1 & (VM & _) & _).
+    destruct (copy_overlay_partial_proof o sroot Hsrc Hlc (or_intror Hw) fs src dst r Hfs Eo) as (st' & E1 & (VM & _) & _).
     exists st'. split; auto.
     destruct (inv_init o fs Hfs) as (_ & Hroot & _).
-    destruct (overlay_all_single o sroot Hsrc Hnl _ src dst r Hw Hroot Eo)
+    destruct (overlay_all_single o sroot Hsrc _ src dst r Hw Hroot Eo)
       as (X1 & eps & ms' & sn' & D & V1 & B1 & B2 & B3 & B4 & B5 & B6 & B7 & B8 & B9 & B10 & B11 & B12).
     rewrite Hp in B2. inversion B2; subst ms'. rewrite Hs in B3. inversion B3; subst sn'.
     rewrite HL in B10. inversion B10 as [HL']. rewrite <- HL' in *. clear HL'.
@@ -506,11 +504,11 @@ Section C13.
            (forall t, o_utime o = Some t -> d_mtime d = t)).
   Proof.
     intros Hw Hfs Eo Hp Hs HL Hm.
-    pose proof (top o sroot Hsrc Hnl fs src dst Hfs) as HT. rewrite Eo in HT.
+    destruct (top o sroot Hsrc Hlc (or_intror Hw) fs src dst Hfs) as (sdof & HT). rewrite Eo in HT.
     destruct HT as (st' & E1 & I & S & _ & _ & MT & (cr & Hg) & _).
     exists st'. split; auto.
     destruct (inv_init o fs Hfs) as (_ & Hroot & _).
-    destruct (overlay_all_single o sroot Hsrc Hnl _ src dst r Hw Hroot Eo)
+    destruct (overlay_all_single o sroot Hsrc _ src dst r Hw Hroot Eo)
       as (X1 & eps & ms' & sn' & D & V1 & B1 & B2 & B3 & B4 & B5 & B6 & B7 & B8 & B9 & B10 & B11 & B12).
     rewrite Hp in B2. inversion B2; subst ms'. rewrite Hs in B3. inversion B3; subst sn'.
     rewrite HL in B10. inversion B10 as [HL']. rewrite <- HL' in *. clear HL'.
@@ -545,10 +543,10 @@ Section C13.
                  exists rel s, q = L ++ rel /\ s_lookup sn rel = Some s /\ is_dir (sdent s) = true).
   Proof.
     intros Hw Hfs Eo Hp Hs HL.
-    destruct (copy_overlay_partial_proof o sroot Hsrc Hnl fs src dst r Hfs Eo) as (st' & E1 & _ & EN).
+    destruct (copy_overlay_partial_proof o sroot Hsrc Hlc (or_intror Hw) fs src dst r Hfs Eo) as (st' & E1 & _ & EN).
     exists st'. split; auto.
     destruct (inv_init o fs Hfs) as (_ & Hroot & _).
-    destruct (overlay_all_single o sroot Hsrc Hnl _ src dst r Hw Hroot Eo)
+    destruct (overlay_all_single o sroot Hsrc _ src dst r Hw Hroot Eo)
       as (X1 & eps & ms' & sn' & D & V1 & B1 & B2 & B3 & B4 & B5 & B6 & B7 & B8 & B9 & B10 & B11 & B12).
     rewrite Hs in B3. inversion B3; subst sn'.
     rewrite HL in B10. inversion B10 as [HL']. rewrite <- HL' in *. clear HL'.
@@ -572,7 +570,7 @@ Section Wins.
   Variable o : copts.
   Variable sroot : snode.
   Hypothesis Hsrc : wf_src sroot.
-  Hypothesis Hnl : no_link_groups sroot.
+  Hypothesis Hlc : links_consistent sroot.
   Notation multi := (multi_of sroot).
 
   Lemma faithful_ftype ms sd d : faithful_dent o ms sd d = true -> ftype d = copy_type sd.
@@ -592,11 +590,11 @@ Section Wins.
                     (is_dir (sdent s) = false -> faithful_dent o ms (sdent s) d = true).
   Proof.
     intros Hw Hfs Eo Hp Hs HL.
-    pose proof (top o sroot Hsrc Hnl fs src dst Hfs) as HT. rewrite Eo in HT.
+    destruct (top o sroot Hsrc Hlc (or_intror Hw) fs src dst Hfs) as (sdof & HT). rewrite Eo in HT.
     destruct HT as (st' & E1 & I & S & _).
     exists st'. split; auto.
     destruct (inv_init o fs Hfs) as (_ & Hroot & _).
-    destruct (overlay_all_single o sroot Hsrc Hnl _ src dst r Hw Hroot Eo)
+    destruct (overlay_all_single o sroot Hsrc _ src dst r Hw Hroot Eo)
       as (X1 & eps & ms' & sn' & D & V1 & B1 & B2 & B3 & B4 & B5 & B6 & B7 & B8 & B9 & B10 & B11 & B12).
     rewrite Hp in B2. inversion B2; subst ms'. rewrite Hs in B3. inversion B3; subst sn'.
     rewrite HL in B10. inversion B10 as [HL']. rewrite <- HL' in *. clear HL' B10.
@@ -635,3 +633,153 @@ Section Wins.
     - intros r L Eo HL. eapply source_entries_present_partial_proof; eauto.
   Qed.
 End Wins.
+
+(* ------------------------------------------------------------------ the inode partition *)
+Lemma count_N_app i l1 l2 : count_N i (l1 ++ l2) = (count_N i l1 + count_N i l2)%nat.
+Proof. induction l1 as [|j r IH]; simpl; auto. destruct (N.eqb i j); simpl; rewrite IH; auto. Qed.
+
+Fixpoint kids_inos (l : list snode) : list N := match l with [] => [] | k :: r => s_inos k ++ kids_inos r end.
+Lemma s_inos_unfold nm i d kids : s_inos (SNode nm i d kids) = (if is_dir d then [] else [i]) ++ kids_inos kids.
+Proof. cbn [s_inos]. f_equal. Qed.
+
+Lemma count_kid i k l : In k l -> (count_N i (s_inos k) <= count_N i (kids_inos l))%nat.
+Proof.
+  induction l as [|x r IH]; [intros []|]. intros [->|H]; simpl; rewrite count_N_app; [lia|]. specialize (IH H). lia.
+Qed.
+Lemma count_two_kids i k1 k2 l : In k1 l -> In k2 l -> sname k1 <> sname k2 ->
+  (count_N i (s_inos k1) + count_N i (s_inos k2) <= count_N i (kids_inos l))%nat.
+Proof.
+  induction l as [|x r IH]; intros H1 H2 Hne; [destruct H1|]. simpl. rewrite count_N_app.
+  destruct H1 as [->|H1], H2 as [->|H2]; try congruence.
+  - pose proof (count_kid i k2 r H2). lia.
+  - pose proof (count_kid i k1 r H1). lia.
+  - specialize (IH H1 H2 Hne). lia.
+Qed.
+
+Lemma count_one : forall r n s, s_lookup n r = Some s -> is_dir (sdent s) = false ->
+  (1 <= count_N (sino s) (s_inos n))%nat.
+Proof.
+  induction r as [|a r IH]; intros [nm i d kids] s.
+  - cbn [s_lookup]. intro H; inversion H; subst. cbn [sdent sino]. intros Hd. rewrite s_inos_unfold, Hd. simpl. rewrite N.eqb_refl. lia.
+  - cbn [s_lookup skids]. destruct (find_kid a kids) as [k|] eqn:E; [|discriminate]. intros Hs Hd.
+    rewrite s_inos_unfold, count_N_app. pose proof (IH k s Hs Hd). pose proof (count_kid (sino s) k kids (find_kid_in _ _ _ E)). lia.
+Qed.
+
+Lemma count_two : forall n, wf_s n -> forall r1 r2 s1 s2, r1 <> r2 ->
+  s_lookup n r1 = Some s1 -> s_lookup n r2 = Some s2 ->
+  is_dir (sdent s1) = false -> is_dir (sdent s2) = false -> sino s1 = sino s2 ->
+  (2 <= count_N (sino s1) (s_inos n))%nat.
+Proof.
+  induction n as [nm i d kids IH] using snode_ind2. intros Hwf r1 r2 s1 s2 Hne H1 H2 Hd1 Hd2 Hi.
+  apply wf_s_unfold in Hwf. destruct Hwf as (_ & Hk & Hnd & Hall).
+  destruct r1 as [|a1 t1], r2 as [|a2 t2]; try congruence.
+  - simpl in H1. inversion H1; subst s1. cbn [sdent] in Hd1. rewrite (Hk Hd1) in H2. simpl in H2. discriminate.
+  - simpl in H2. inversion H2; subst s2. cbn [sdent] in Hd2. rewrite (Hk Hd2) in H1. simpl in H1. discriminate.
+  - cbn [s_lookup skids] in H1, H2.
+    destruct (find_kid a1 kids) as [k1|] eqn:E1; [|discriminate].
+    destruct (find_kid a2 kids) as [k2|] eqn:E2; [|discriminate].
+    rewrite s_inos_unfold, count_N_app.
+    destruct (list_eq_dec N.eq_dec a1 a2) as [->|Hna].
+    + rewrite E1 in E2. inversion E2; subst k2.
+      rewrite Forall_forall in IH, Hall. pose proof (find_kid_in _ _ _ E1) as Hin.
+      assert (t1 <> t2) by congruence.
+      pose proof (IH k1 Hin (Hall k1 Hin) t1 t2 s1 s2 H H1 H2 Hd1 Hd2 Hi).
+      pose proof (count_kid (sino s1) k1 kids Hin). lia.
+    + pose proof (count_one _ _ _ H1 Hd1). pose proof (count_one _ _ _ H2 Hd2). rewrite <- Hi in H0.
+      pose proof (count_two_kids (sino s1) k1 k2 kids (find_kid_in _ _ _ E1) (find_kid_in _ _ _ E2)).
+      rewrite (find_kid_name _ _ _ E1), (find_kid_name _ _ _ E2) in H3. specialize (H3 Hna). lia.
+Qed.
+
+Lemma count_resolve i : forall p n sn, s_resolve n p = inl sn -> (count_N i (s_inos sn) <= count_N i (s_inos n))%nat.
+Proof.
+  induction p as [|a p IH]; intros [nm j d kids] sn; cbn [s_resolve sdent skids].
+  - intro H; inversion H; subst. lia.
+  - destruct (is_dir d); [|discriminate]. destruct (find_kid a kids) as [k|] eqn:E; [|discriminate]. intro H.
+    specialize (IH _ _ H). rewrite s_inos_unfold, count_N_app.
+    pose proof (count_kid i k kids (find_kid_in _ _ _ E)). lia.
+Qed.
+
+Lemma multi_of_two sroot p sn r1 r2 s1 s2 :
+  s_resolve sroot p = inl sn -> wf_s sn -> r1 <> r2 ->
+  s_lookup sn r1 = Some s1 -> s_lookup sn r2 = Some s2 ->
+  is_dir (sdent s1) = false -> is_dir (sdent s2) = false -> sino s1 = sino s2 ->
+  multi_of sroot (sino s1) = true.
+Proof.
+  intros Hr Hwf Hne H1 H2 Hd1 Hd2 Hi.
+  pose proof (count_two sn Hwf r1 r2 s1 s2 Hne H1 H2 Hd1 Hd2 Hi).
+  pose proof (count_resolve (sino s1) _ _ _ Hr). unfold multi_of.
+  destruct (count_N (sino s1) (s_inos sroot)) as [|[|n]]; try lia; auto.
+Qed.
+
+Lemma new_entry_key_gen o ms multi s T :
+  x_key (new_entry o ms multi s T) = if is_reg (sdent s) && multi (sino s) then KSrc (sino s) else KNew T.
+Proof. reflexivity. Qed.
+
+Section C13Full.
+  Variable o : copts.
+  Variable sroot : snode.
+  Hypothesis Hsrc : wf_src sroot.
+  Hypothesis Hlc : links_consistent sroot.
+  Notation multi := (multi_of sroot).
+
+  (* C13: into an empty destination the tree below the landing path is the source tree,
+     including the inode partition of the regular files (link groups are reproduced) *)
+  Theorem copy_into_empty_faithful_proof fs src dst r ms sn L m :
+    o_wild o = false -> empty_dst fs ->
+    overlay_all o sroot (view_of_fs fs) src dst = inl r ->
+    parse_of o = Some ms -> s_resolve sroot (rooted src) = inl sn ->
+    xr_landings r = [L] -> xr_merged r = [m] -> landing_clear r sn L ->
+    exists st', copy_top o sel_all sroot fs src dst = (st', None) /\
+                tree_iso o ms m sn L (view_of_fs (c_fs st')).
+  Proof.
+    intros Hw Hemp Eo Hp Hs HL Hm Hclear.
+    destruct (copy_into_empty_faithful_partial_proof o sroot Hsrc Hlc fs src dst r ms sn L m Hw Hemp Eo Hp Hs HL Hm Hclear)
+      as (st' & E1 & Hiso).
+    exists st'. split; auto. split; auto.
+    destruct Hemp as (Hfs & _).
+    destruct (copy_overlay_partial_proof o sroot Hsrc Hlc (or_intror Hw) fs src dst r Hfs Eo) as (st'' & E1' & (VM & VK) & _).
+    rewrite E1 in E1'. inversion E1'; subst st''. clear E1'.
+    destruct (inv_init o fs Hfs) as (_ & Hroot & _).
+    destruct (overlay_all_single o sroot Hsrc _ src dst r Hw Hroot Eo)
+      as (X1 & eps & ms' & sn' & D & V1 & B1 & B2 & B3 & B4 & B5 & B6 & B7 & B8 & B9 & B10 & B11 & B12).
+    rewrite Hp in B2. inversion B2; subst ms'. rewrite Hs in B3. inversion B3; subst sn'.
+    rewrite HL in B10. inversion B10 as [HL']. rewrite <- HL' in *. clear HL' B10.
+    pose proof (s_resolve_wf_src sroot Hsrc _ _ Hs) as Hwfn.
+    intros r1 r2. unfold part_at.
+    destruct (s_lookup sn r1) as [s1|] eqn:E1s; auto. destruct (s_lookup sn r2) as [s2|] eqn:E2s; auto.
+    destruct (view_of_fs (c_fs st') (L ++ r1)) as [[i1 d1]|] eqn:EV1; auto.
+    destruct (view_of_fs (c_fs st') (L ++ r2)) as [[i2 d2]|] eqn:EV2; auto.
+    destruct (is_reg (sdent s1) && is_reg (sdent s2)) eqn:Ereg; auto.
+    apply andb_true_iff in Ereg as [Er1 Er2].
+    pose proof (VK (L ++ r1) (L ++ r2)) as HK. unfold keys_at in HK. rewrite EV1, EV2, !B8 in HK.
+    rewrite (res_at_source o sroot ms sn L V1 r1 s1 B7 E1s), (res_at_source o sroot ms sn L V1 r2 s2 B7 E2s) in HK.
+    pose proof (VM (L ++ r1)) as HM1. unfold match_at in HM1. rewrite EV1, B8, (res_at_source o sroot ms sn L V1 r1 s1 B7 E1s) in HM1.
+    pose proof (VM (L ++ r2)) as HM2. unfold match_at in HM2. rewrite EV2, B8, (res_at_source o sroot ms sn L V1 r2 s2 B7 E2s) in HM2.
+    destruct (type_facts (sdent s1)) as (TR1 & _). destruct (TR1 Er1) as (_ & _ & C1).
+    destruct (type_facts (sdent s2)) as (TR2 & _). destruct (TR2 Er2) as (_ & _ & C2).
+    assert (Nd1 : is_dir (sdent s1) = false) by (unfold is_dir; unfold is_reg in Er1; apply N.eqb_eq in Er1; rewrite Er1; reflexivity).
+    assert (Nd2 : is_dir (sdent s2) = false) by (unfold is_dir; unfold is_reg in Er2; apply N.eqb_eq in Er2; rewrite Er2; reflexivity).
+    assert (Ec1 : forall old top p, copied o ms multi s1 old top p = new_entry o ms multi s1 p).
+    { intros old top p. unfold copied. rewrite Nd1. destruct old; auto. }
+    assert (Ec2 : forall old top p, copied o ms multi s2 old top p = new_entry o ms multi s2 p).
+    { intros old top p. unfold copied. rewrite Nd2. destruct old; auto. }
+    rewrite Ec1 in HK, HM1. rewrite Ec2 in HK, HM2.
+    assert (Hd1 : is_dir d1 = false).
+    { destruct (dent_match_dm o _ _ HM1) as (Hdm & _). rewrite (dm_is_dir _ _ _ Hdm), new_entry_d. apply ne_d_nondir; auto. }
+    assert (Hd2 : is_dir d2 = false).
+    { destruct (dent_match_dm o _ _ HM2) as (Hdm & _). rewrite (dm_is_dir _ _ _ Hdm), new_entry_d. apply ne_d_nondir; auto. }
+    rewrite Hd1, Hd2 in HK. cbn [orb] in HK.
+    rewrite !new_entry_key_gen, Er1, Er2 in HK. cbn [andb] in HK.
+    apply Bool.eqb_prop in HK. rewrite HK. clear HK.
+    destruct (multi (sino s1)) eqn:M1, (multi (sino s2)) eqn:M2; cbn [ikey_eqb].
+    - destruct (N.eqb (sino s1) (sino s2)); reflexivity.
+    - destruct (N.eqb (sino s1) (sino s2)) eqn:E; auto. apply N.eqb_eq in E. rewrite E in M1. congruence.
+    - destruct (N.eqb (sino s1) (sino s2)) eqn:E; auto. apply N.eqb_eq in E. rewrite E in M1. congruence.
+    - destruct (path_eqb (L ++ r1) (L ++ r2)) eqn:Ep.
+      + apply path_eqb_eq in Ep. apply app_inv_head in Ep. subst r2. rewrite E1s in E2s. inversion E2s; subst.
+        rewrite N.eqb_refl. reflexivity.
+      + destruct (N.eqb (sino s1) (sino s2)) eqn:E; auto. apply N.eqb_eq in E. exfalso.
+        assert (r1 <> r2) by (intro; subst; rewrite path_eqb_refl in Ep; discriminate).
+        rewrite (multi_of_two sroot _ sn r1 r2 s1 s2 Hs Hwfn H E1s E2s Nd1 Nd2 E) in M1. discriminate.
+  Qed.
+End C13Full.
